@@ -28,6 +28,7 @@ where
     C: Comments,
 {
     pub(crate) fn extract_props_type(&mut self, setup_fn: &ExprOrSpread) -> Option<Expr> {
+        verif_point!("extract_props");
         let mut defaults = None;
         let first_param_type = if let ExprOrSpread { expr, spread: None } = setup_fn {
             match &**expr {
@@ -162,6 +163,7 @@ where
                         },
                     ],
                     span: if let Some(comments) = &self.comments {
+                        verif_point!("dummy_with_cmt");
                         let span = Span::dummy_with_cmt();
                         comments.add_pure_comment(span.lo);
                         span
@@ -180,6 +182,7 @@ where
         TsTypeAnn { type_ann, .. }: &TsTypeAnn,
         defaults: Option<Vec<(Cow<PropName>, Expr)>>,
     ) -> ObjectLit {
+        verif_point!("build_props");
         let mut props = Vec::with_capacity(3);
         self.resolve_type_elements(type_ann, &mut props);
 
@@ -360,6 +363,7 @@ where
     }
 
     fn resolve_type_elements(&self, ty: &TsType, props: &mut Vec<RefinedTsTypeElement>) {
+        verif_point!("resolve_type_elements");
         match ty {
             TsType::TsTypeLit(TsTypeLit { members, .. }) => {
                 props.extend(members.iter().filter_map(|member| match member {
@@ -588,6 +592,7 @@ where
     }
 
     fn resolve_string_or_union_strings(&self, ty: &TsType) -> Vec<Atom> {
+        verif_point!("resolve_strings");
         match ty {
             TsType::TsLitType(TsLitType {
                 lit: TsLit::Str(key),
@@ -639,6 +644,7 @@ where
     }
 
     fn resolve_indexed_access(&self, obj: &TsType, index: &TsType) -> Option<TsType> {
+        verif_point!("resolve_indexed_access");
         match obj {
             TsType::TsTypeRef(TsTypeRef {
                 type_name: TsEntityName::Ident(ident),
@@ -942,6 +948,7 @@ where
     }
 
     fn infer_runtime_type(&self, ty: &TsType) -> IndexSet<Option<Atom>> {
+        verif_point!("infer_runtime_type");
         let mut runtime_types = IndexSet::with_capacity(1);
         match ty {
             TsType::TsKeywordType(keyword) => match keyword.kind {
@@ -1100,6 +1107,7 @@ where
     }
 
     pub(crate) fn extract_emits_type(&self, setup_fn: &ExprOrSpread) -> Option<ArrayLit> {
+        verif_point!("extract_emits");
         let TsTypeAnn {
             type_ann: second_param_type,
             ..
